@@ -138,6 +138,12 @@ func (c12) Case(c *core.Ctx) {
 		specs = append(specs[:pos], append([]string{malformed}, specs[pos:]...)...)
 		c.Count("malformed")
 	}
+	if r.Intn(4) == 0 {
+		// ambient option that NewMap does not document as affecting it
+		mxj.SetFieldSeparator([]string{"|", ";", "."}[r.Intn(3)])
+		defer mxj.SetFieldSeparator()
+		c.Count("ambient:fieldsep")
+	}
 	c.Eval()
 	res, err := mxj.Map(root).NewMap(specs...)
 	if jv.Cyclic(root) || jv.Cyclic(map[string]interface{}(res)) {
